@@ -21,6 +21,10 @@ func (w *Worker) pickPkgs(r *simrt.Rand, index, n int) []string {
 }
 
 func (w *Worker) genC02(rc *simapi.RunConfig) {
+	if rc.Index%6 == 5 {
+		w.genC02Analyzer(rc)
+		return
+	}
 	r := simrt.NewRand(rc.RunSeed, "work")
 	rc.Kind = "cli-determinism"
 	np := 1 + r.Intn(2)
